@@ -6,6 +6,7 @@ use serde_json::{json, Value};
 use std::io::Read;
 
 mod c17;
+mod c18;
 
 pub fn bytes_of(v: &Value) -> Vec<u8> {
     if let Some(s) = v.get("utf8").and_then(|x| x.as_str()) {
@@ -33,6 +34,9 @@ fn main() {
         "c17_roundtrip" => c17::roundtrip(&v),
         "c17_parse" => c17::parse(&v),
         "c17_remap" => c17::remap(&v),
+        "c18_parse" => c18::parse(&v),
+        "c18_alias_tokens" => c18::alias_tokens(&v),
+        "c18_alias_resolve" => c18::alias_resolve(&v),
         _ => json!({"error": format!("unknown kind {kind}")}),
     };
     println!("{}", out);
